@@ -5,7 +5,7 @@ CONSTANTS
   GPUs = {1, 2}
   PageDev <- MCPageDev2
   PhysPage <- MCPhys
-  SpareDev = <<>>
+  SpareDev <- MCSpare0
   MaxRemap = 0
   Bufs <- MCBufs1
   Ctxs = {1}
